@@ -162,13 +162,37 @@ theorem readDigits_append : ∀ (ds rest : Str) (acc : Nat), Digits ds → NoDig
     simp only [List.cons_append, readDigits, h1, if_true, List.foldl_cons]
     exact readDigits_append ds rest _ (Digits.tail hd) hr
 
-theorem readNat_itoa (n : Nat) (rest : Str) (hr : NoDigHead rest) :
+theorem itoaF_zero : ∀ f, itoaF f 0 = []
+  | 0 => rfl
+  | f + 1 => by simp [itoaF]
+
+theorem digitChar_ne_zero : ∀ d, d < 10 → d ≠ 0 → digitChar d ≠ '0' := by decide
+
+/-- the numeral of a positive number starts with a non-zero digit -/
+theorem itoaF_head : ∀ f n, 0 < n → n ≤ f → ∃ c t, itoaF f n = c :: t ∧ isDig c = true ∧ c ≠ '0'
+  | 0, n, h0, hf => by omega
+  | f + 1, n, h0, hf => by
+    unfold itoaF
+    rw [if_neg (by omega)]
+    by_cases hq : n / 10 = 0
+    · rw [hq, itoaF_zero]
+      have hlt : n % 10 < 10 := Nat.mod_lt _ (by decide)
+      exact ⟨_, [], rfl, isDig_digitChar _ hlt, digitChar_ne_zero _ hlt (by omega)⟩
+    · obtain ⟨c, t, e, hc, hz⟩ := itoaF_head f (n / 10) (by omega) (by omega)
+      exact ⟨c, t ++ [digitChar (n % 10)], by rw [e]; rfl, hc, hz⟩
+
+theorem itoa_head (n : Nat) (h : 1 ≤ n) : ∃ c t, itoa n = c :: t ∧ isDig c = true ∧ c ≠ '0' := by
+  unfold itoa
+  rw [if_neg (by omega)]
+  exact itoaF_head n n (by omega) (Nat.le_refl _)
+
+theorem readNat_itoa (n : Nat) (rest : Str) (hn : 1 ≤ n) (hr : NoDigHead rest) :
     readNat (itoa n ++ rest) = some (n, rest) := by
-  obtain ⟨c, t, hs, hc⟩ := itoa_cons n
+  obtain ⟨c, t, hs, hc, hz⟩ := itoa_head n hn
   have h := readDigits_append (itoa n) rest 0 (itoa_digits n) hr
   rw [itoa_horner] at h
   rw [hs] at h ⊢
-  simp only [List.cons_append, readNat, hc, if_true]
+  simp only [List.cons_append, readNat, hc, Bool.true_and, bne_iff_ne, ne_eq, hz, not_false_eq_true, if_true]
   exact congrArg some h
 
 end PolyVerif.Lemmas.Location
